@@ -6,6 +6,7 @@
 package main
 
 import (
+	_ "github.com/gdamore/tcell/v2/encoding"
 	"fmt"
 	"sort"
 	"strings"
@@ -365,6 +366,7 @@ func tokens(e common.Entry, p *tcell.VerifParser) []token {
 	add("e-acute", "\xc3\xa9", []ri.Ev{{Kind: "key", Key: tcell.KeyRune, Rune: 0xe9}}, "")
 	add("invalid-ff", "\xff", nil, "")
 	add("ctrl-a", "\x01", nil, "")
+	add("lead-c3", "\xc3", nil, "")
 	add("alt-x", "\x1bx", []ri.Ev{{Kind: "key", Key: tcell.KeyRune, Rune: 'x', Mod: tcell.ModAlt}}, "")
 	add("lone-esc", "\x1b", keyEv(tcell.KeyEsc, 0), "")
 	return t
@@ -452,6 +454,8 @@ func main() {
 	}
 	w.Finish()
 }
+
+var legacyDone bool
 
 func runEntry(w *hc.W, e common.Entry) {
 	p, err := tcell.VerifNewParser(e.Ti, "UTF-8", 80, 24)
@@ -607,6 +611,34 @@ func runEntry(w *hc.W, e common.Entry) {
 				// mouse state crosses tokens: press/motion pairs are covered by C12; keep the
 				// compositional claim for strings without a button-state-dependent token
 				checkString(w, r, "tokens", nil, s)
+				if (names[0] == "invalid-ff" || names[0] == "lead-c3") && len(seqIdx) > 1 {
+					// a stray byte that is no text (invalid, or a lead byte whose character never
+					// completes - no token starts with a continuation byte) in front of recognised
+					// sequences: whatever becomes of it, "a recognised sequence never swallows or
+					// corrupts bytes that precede or follow it" - the sequences behind it decode
+					// to their own events, at the latest once the timeout has passed
+					ok := true
+					var tail []ri.Ev
+					for k := 1; k < len(seqIdx); k++ {
+						if !delimited(seqIdx, k) || (toks[seqIdx[k]].need != "" && !isReport(seqIdx[k])) {
+							ok = false
+						}
+						tail = append(tail, sing[seqIdx[k]].evs...)
+					}
+					if ok && len(tail) > 0 {
+						// (a tail that does not compose on its own is the compose oracle's business)
+						_, tf, _ := r.run(nil, [][]byte{s[len(toks[a].b):]})
+						ok = ri.EqEvs(tf.evs, tail)
+					}
+					if ok && len(tail) > 0 {
+						w.R.Evaluations++
+						_, f, _ := r.run(nil, [][]byte{s})
+						if len(f.evs) < len(tail) || !ri.EqEvs(f.evs[len(f.evs)-len(tail):], tail) {
+							w.Violation("swallowed-after:"+names[0]+":"+strings.Join(names[1:], ","), fmt.Sprintf("%s: %s after the stray byte %s: %s decodes to %s, but what follows the stray byte decodes on its own to %s", r.entry, strings.Join(names[1:], " "), q(toks[a].b), q(s), f, state{evs: tail}),
+								map[string]interface{}{"Entry": r.entry, "Charset": "UTF-8", "Prefix": "", "Chunks": []string{string(s)}})
+						}
+					}
+				}
 				if comp {
 					w.R.Evaluations++
 					_, f, _ := r.run(nil, [][]byte{s})
@@ -644,6 +676,32 @@ func runEntry(w *hc.W, e common.Entry) {
 						_, mf, _ := r.run(nil, [][]byte{ms})
 						w.Violation("compose:"+strings.Join(mn, ","), fmt.Sprintf("%s: token string %v = %s decodes to %s, but the tokens alone decode to %s (minimal; found in %v)", r.entry, mn, q(ms), mf, state{evs: mw}, names),
 							map[string]interface{}{"Entry": r.entry, "Charset": "UTF-8", "Prefix": "", "Chunks": []string{string(ms)}})
+					}
+				}
+			}
+		}
+	}
+	// 3: legacy multi-byte character sets: a byte that starts no character (or a lead byte whose
+	// character never completes: ESC is no trail byte anywhere) in front of a recognised sequence
+	if !legacyDone && p.HasMouse() && hasPaste && hc.Mine(0) {
+		legacyDone = true
+		for _, cs := range []string{"GBK", "GB18030", "Big5", "EUC-KR", "EUC-JP", "Shift_JIS", "ISO8859-1", "KOI8-R"} {
+			lp, err := tcell.VerifNewParser(e.Ti, cs, 80, 24)
+			if err != nil {
+				w.Note("C02 legacy part: %s: %v", cs, err)
+				continue
+			}
+			lr := &rig{lp, e.Name, cs}
+			for _, tail := range []string{e.Ti.KeyUp, "\x1b[I", "\x1b[<0;3;4M", "\x1b[200~", "\x1bx"} {
+				_, tf, _ := lr.run(nil, [][]byte{[]byte(tail)})
+				for b0 := 0x80; b0 <= 0xff; b0++ {
+					w.R.Evaluations++
+					in := append([]byte{byte(b0)}, tail...)
+					checkString(w, lr, "legacy", nil, in)
+					_, f, _ := lr.run(nil, [][]byte{in})
+					if len(f.evs) < len(tf.evs) || !ri.EqEvs(f.evs[len(f.evs)-len(tf.evs):], tf.evs) {
+						w.Violation("swallowed-after:legacy-lead:"+cs, fmt.Sprintf("%s/%s: %s decodes to %s, but %s on its own decodes to %s: the byte in front swallows or corrupts the sequence behind it", e.Name, cs, q(in), f, q([]byte(tail)), tf),
+							map[string]interface{}{"Entry": e.Name, "Charset": cs, "Prefix": "", "Chunks": []string{string(in)}})
 					}
 				}
 			}
